@@ -13,6 +13,7 @@ import (
 	"sort"
 	"strconv"
 	"strings"
+	"syscall"
 
 	"github.com/protobom/protobom/pkg/sbom"
 	"github.com/protobom/protobom/pkg/storage"
@@ -129,7 +130,7 @@ func crashRun(args []string) error {
 	}
 	defer os.RemoveAll(base)
 	env := append(os.Environ(), "GOMAXPROCS=1")
-	noclobber := false
+	noclobber, tmpdirEnv := false, ""
 	store := func(dir, id, variant string, strace ...string) error {
 		argv := append(append([]string{}, strace...), self, "crash-child", "--dir", dir, "--id", id, "--variant", variant, "--op", "store")
 		if noclobber && len(strace) > 0 { // only the store under observation; the preparing stores are plain
@@ -137,15 +138,40 @@ func crashRun(args []string) error {
 		}
 		cmd := exec.Command(argv[0], argv[1:]...)
 		cmd.Env = env
+		if tmpdirEnv != "" && len(strace) > 0 {
+			cmd.Env = append(append([]string{}, env...), "TMPDIR="+tmpdirEnv)
+		}
 		return cmd.Run()
 	}
 	const id, other = "urn:doc:crash-subject", "urn:doc:bystander"
-	oldDoc, newDoc, otherDoc := showDoc(self, id, "old"), showDoc(self, id, "new"), showDoc(self, other, "other")
+	oldDoc, newDoc, otherDoc, shortDoc := showDoc(self, id, "old"), showDoc(self, id, "new"), showDoc(self, other, "other"), showDoc(self, id, "s")
+	// a directory on another file system, to be offered as TMPDIR: a store must not depend on where TMPDIR is
+	elsewhere := ""
+	if st1, err1 := os.Stat("/dev/shm"); err1 == nil {
+		if st2, err2 := os.Stat(base); err2 == nil {
+			if a, ok1 := st1.Sys().(*syscall.Stat_t); ok1 {
+				if b, ok2 := st2.Sys().(*syscall.Stat_t); ok2 && a.Dev != b.Dev {
+					if d, err := os.MkdirTemp("/dev/shm", "vh-crash-tmp-"); err == nil {
+						elsewhere = d
+						defer os.RemoveAll(d)
+					}
+				}
+			}
+		}
+	}
 	sid := 0
-	for _, scenarioFull := range []string{"first-absent-dir", "first", "overwrite", "first-noclobber", "first-absent-dir-noclobber"} {
+	scenarios := []string{"first-absent-dir", "first", "overwrite", "first-noclobber", "first-absent-dir-noclobber"}
+	if elsewhere != "" {
+		scenarios = append(scenarios, "overwrite-tmpdir-elsewhere", "first-tmpdir-elsewhere")
+	}
+	for _, scenarioFull := range scenarios {
 		sid++
-		scenario := strings.TrimSuffix(scenarioFull, "-noclobber")
-		noclobber = scenarioFull != scenario
+		scenario := strings.TrimSuffix(strings.TrimSuffix(scenarioFull, "-noclobber"), "-tmpdir-elsewhere")
+		noclobber = strings.HasSuffix(scenarioFull, "-noclobber")
+		tmpdirEnv = ""
+		if strings.HasSuffix(scenarioFull, "-tmpdir-elsewhere") {
+			tmpdirEnv = elsewhere
+		}
 		prep := func(dir string) {
 			switch scenario {
 			case "first":
@@ -227,7 +253,7 @@ func crashRun(args []string) error {
 			}
 		}
 		w.write(map[string]any{"op": "CrashReset", "sid": sid, "scenario": scenarioFull, "oldlen": oldLen, "newlen": newLen,
-			"old": oldDoc, "new": newDoc, "other": otherDoc, "overwrite": scenario == "overwrite"})
+			"old": oldDoc, "new": newDoc, "other": otherDoc, "short": shortDoc, "overwrite": scenario == "overwrite"})
 		// the abstract system call sequence of the store, for the model
 		for _, c := range calls[begin : end-1] {
 			ev := map[string]any{"op": "Syscall", "sid": sid, "name": c.name, "ordinal": c.ordinal, "target": "none", "target2": "none", "len": len(c.data), "flags": ""}
@@ -286,6 +312,12 @@ func crashRun(args []string) error {
 				"nfiles": len(listing), "overwrite": scenario == "overwrite", "hasother": scenario != "first-absent-dir"}
 			ev["id_res"], ev["id_doc"] = retrieveChild(self, dir, id)
 			ev["other_res"], ev["other_doc"] = retrieveChild(self, dir, other)
+			// recovery: after the crash a complete store of another (shorter) document must simply work
+			if err := store(dir, id, "s"); err != nil {
+				ev["after_res"], ev["after_doc"] = "store-failed", map[string]any{"nil": true}
+			} else {
+				ev["after_res"], ev["after_doc"] = retrieveChild(self, dir, id)
+			}
 			w.write(ev)
 			os.RemoveAll(dir)
 		}
@@ -315,6 +347,11 @@ func crashRun(args []string) error {
 func crashDoc(id, variant string) *sbom.Document {
 	d := sbom.NewDocument()
 	d.Metadata.Id = id
+	if variant == "s" { // a much shorter document (follow-up store after a crash)
+		d.Metadata.Name = "s"
+		d.NodeList.AddRootNode(&sbom.Node{Id: "s"})
+		return d
+	}
 	d.Metadata.Name = "document-" + variant
 	d.Metadata.Comment = "payload of the " + variant + " version; long enough to be torn in several places ........................................"
 	for i := 0; i < 4; i++ {
